@@ -1261,6 +1261,80 @@ example : ∃ r, parseModel (ParenTokens.spliceParens C19_fxToks 1 2 ⟨.leftPar
     r.erase = .bin .sum (.app (.var 1 1) (.var 2 0)) (.lit 1) :=
   (ParenTokens.parseModel_eval _ 60 [1, 2] _ (by decide +kernel)).1
 
+/-! ### The re-association step for an argument, and for any opaque operand
+
+Node-level pieces of the missing three-pass congruence (`Lemmas/ParenTokens.lean`). -/
+
+/-- **Parentheses around an argument that is an atom** (`f x` against `f (x)`, the applications pass;
+`C19_paren_operand` covers only the two binary-operator passes): in an application node met with any
+accumulator and any `group` flag, an argument the pass keeps as it is may be replaced by one that
+differs only in ranges / `group` flag / error list, provided the applicand is opaque to the pass (an
+atom, or a parenthesised application: what the grammar allows in that position). -/
+def C19_paren_argument_stmt : Prop :=
+  ∀ (acc : Option (Src × Link)) (r : SourceRange) (g : Bool) (f a a' : Src) (es : List PErr),
+    RewriteMore.Kept .applications a → RewriteMore.Kept .applications a' →
+    RewriteMore.strip a' = RewriteMore.strip a → RewriteMore.Opaque .applications f →
+    (reassoc .applications acc (.mk r g (.app f a') es)).map RewriteMore.strip =
+      (reassoc .applications acc (.mk r g (.app f a) es)).map RewriteMore.strip
+theorem C19_paren_argument : C19_paren_argument_stmt :=
+  fun acc r g f a a' es ha ha' hs hf => ParenTokens.paren_argument acc r g f a a' es ha ha' hs hf
+
+/-- every node that is not a link of the family's chains is opaque to the pass (whatever its `group`
+flag), and so is a parenthesised application for the applications pass -/
+def C19_opaque_nonfam_stmt : Prop :=
+  (∀ (fam : Family) (r : SourceRange) (g : Bool) (v : SrcV) (es : List PErr),
+    ParenTokens.famNode fam v = false → RewriteMore.Opaque fam (.mk r g v es)) ∧
+  (∀ (r : SourceRange) (f a : Src) (es : List PErr),
+    RewriteMore.Opaque .applications (.mk r true (.app f a) es))
+theorem C19_opaque_nonfam : C19_opaque_nonfam_stmt :=
+  ⟨ParenTokens.opaque_nonfam, ParenTokens.opaque_grouped_app⟩
+
+/-- **Parentheses around any operand that is opaque to the pass** (not only an atom: a node of another
+family such as an application under `+`, or a parenthesised chain): the right operand `b` of a chain
+node of the family may be replaced by any opaque `b'` that the pass takes to the same result up to
+ranges / flags / error lists — e.g. `b` itself in parentheses (`C19_paren_whole_pass`). -/
+def C19_paren_operand_opaque_stmt : Prop :=
+  ∀ (fam : Family) (acc : Option (Src × Link)) (r : SourceRange) (g : Bool) (o : BinOp)
+    (a b b' : Src) (es : List PErr),
+    ((fam = .productsAndQuotients ∧ (o = .prod ∨ o = .quot))
+      ∨ (fam = .sumsAndDifferences ∧ (o = .sum ∨ o = .diff))) →
+    RewriteMore.Opaque fam b → RewriteMore.Opaque fam b' →
+    (reassoc fam none b').map RewriteMore.strip = (reassoc fam none b).map RewriteMore.strip →
+    RewriteMore.Opaque fam a →
+    (reassoc fam acc (.mk r g (.bin o a b') es)).map RewriteMore.strip =
+      (reassoc fam acc (.mk r g (.bin o a b) es)).map RewriteMore.strip
+theorem C19_paren_operand_opaque : C19_paren_operand_opaque_stmt :=
+  fun fam acc r g o a b b' es ho hb hb' hs ha =>
+    ParenTokens.paren_operand_opaque fam acc r g o a b b' es ho hb hb' hs ha
+
+section OperandExamples
+private def v19 (x : Name) (s e : Nat) (g : Bool) : Src := .mk ⟨s, e⟩ g (.var x) []
+
+-- `f x` against `f (x)` (applications pass, with an accumulator `h`): hypotheses hold, results agree and exist
+example : (reassoc .applications (some (v19 3 0 1 false, .app))
+      (.mk ⟨2, 7⟩ false (.app (v19 1 2 3 false) (v19 2 4 7 true)) [])).map RewriteMore.strip =
+    (reassoc .applications (some (v19 3 0 1 false, .app))
+      (.mk ⟨2, 5⟩ false (.app (v19 1 2 3 false) (v19 2 4 5 false)) [])).map RewriteMore.strip :=
+  C19_paren_argument _ _ _ _ _ _ _ (RewriteMore.kept_atom _ _ _ _ _ (by simp))
+    (RewriteMore.kept_atom _ _ _ _ _ (by simp)) rfl
+    (RewriteMore.opaque_of_kept (RewriteMore.kept_atom _ _ _ _ _ (by simp)))
+example : (reassoc .applications (some (v19 3 0 1 false, .app))
+      (.mk ⟨2, 5⟩ false (.app (v19 1 2 3 false) (v19 2 4 5 false)) [])).isSome = true := by rfl
+
+-- `a + f x` against `a + (f x)` (sums pass): the operand is an application, opaque by `C19_opaque_nonfam`
+private def fx19 : Src := .mk ⟨4, 7⟩ false (.app (v19 2 4 5 false) (v19 3 6 7 false)) []
+private def fx19' : Src := .mk ⟨4, 9⟩ true (.app (v19 2 5 6 false) (v19 3 7 8 false)) []
+example : (reassoc .sumsAndDifferences none
+      (.mk ⟨0, 7⟩ false (.bin .sum (v19 1 0 1 false) fx19') [])).map RewriteMore.strip =
+    (reassoc .sumsAndDifferences none
+      (.mk ⟨0, 7⟩ false (.bin .sum (v19 1 0 1 false) fx19) [])).map RewriteMore.strip :=
+  C19_paren_operand_opaque .sumsAndDifferences none ⟨0, 7⟩ false .sum (v19 1 0 1 false) fx19 fx19' []
+    (.inr ⟨rfl, .inl rfl⟩)
+    (C19_opaque_nonfam.1 .sumsAndDifferences ⟨4, 7⟩ false _ [] (by decide))
+    (C19_opaque_nonfam.1 .sumsAndDifferences ⟨4, 9⟩ true _ [] (by decide)) (by rfl)
+    (RewriteMore.opaque_of_kept (RewriteMore.kept_atom _ _ _ _ _ (Or.inr (Or.inl ⟨1, rfl⟩))))
+end OperandExamples
+
 end ParenTokensSection
 
 /-! ## Consistent renaming of bound variables, at source level
